@@ -181,9 +181,103 @@ def check_file(kind, opts, seed, collect=3, cut=None):
     return nops, bad
 
 
+class _RecFile(object):
+    """a binary file object that logs (position, size) of every read()/readinto()"""
+
+    def __init__(self, f, log):
+        self._f, self._log = f, log
+
+    def read(self, n=-1):
+        pos = self._f.tell()
+        out = self._f.read(n)
+        if out:
+            self._log.append((pos, len(out)))
+        return out
+
+    def readinto(self, b):
+        pos = self._f.tell()
+        n = self._f.readinto(b)
+        if n:
+            self._log.append((pos, n))
+        return n
+
+    def __getattr__(self, name):
+        return getattr(self._f, name)
+
+    def __enter__(self):
+        return self
+
+    def __exit__(self, *a):
+        self._f.close()
+
+
+def check_file_indexed(kind, opts, seed, collect=3):
+    """The file lies on disk with its matching .tdms_index beside it and is opened by path; the FIRST operation on each freshly
+    opened file is judged (what a one-off step at first access fetches is part of that request).  Reads of the data file are
+    recorded by wrapping the open() the library uses."""
+    import builtins
+    import os
+    import shutil
+    hist = F.f4_build(kind, opts, seed)
+    data, idx, layout, ref = G.encode(hist, seed=seed, index=True)
+    table = chunk_table(layout, F.A, None)
+    L = table[-1][2] if table else 0
+    tmp = H.scratch('verif_c19_')
+    path = os.path.join(tmp, 'f.tdms')
+    with open(path, 'wb') as f:
+        f.write(data)
+    with open(path + '_index', 'wb') as f:
+        f.write(idx)
+    log = []
+    real_open = builtins.open
+
+    def rec_open(file, *a, **kw):
+        fobj = real_open(file, *a, **kw)
+        if str(file) == path:
+            return _RecFile(fobj, log)
+        return fobj
+    bad, nops, seen = [], 0, {}
+    builtins.open = rec_open
+    try:
+        ops = [(['index', i], i, i + 1, (lambda c, i=i: c[i])) for i in list(range(L)) + [-1]]
+        ops += [(['read_data', off, 1], off, off + 1, (lambda c, off=off: c.read_data(off, 1))) for off in range(L)]
+        ops += [(['slice', off, off + 2], off, min(L, off + 2), (lambda c, off=off: c[off:off + 2])) for off in range(0, L, 2)]
+        for op, lo, hi, fn in ops:
+            if lo < 0:
+                lo, hi = lo + L, hi + L
+            del log[:]
+            r = H.guarded(lambda: H.TdmsFile.open(path))
+            if r[0] != 'ok':
+                bad.append(('open', op, 'no error', 'open by path with index raised %s: %s' % (r[1], r[2])))
+                break
+            tf = r[1]
+            try:
+                del log[:]      # what opening itself read (it may look at the data file) is not part of the request
+                rr = H.guarded(fn, tf['g']['a'])
+                nops += 1
+                if rr[0] != 'ok':
+                    continue
+                out = outside(log, allowed_ranges(layout, table, lo, hi))
+                if out:
+                    seen['first-op'] = seen.get('first-op', 0) + 1
+                    if seen['first-op'] <= collect:
+                        bad.append(('first-op-indexed', op, 'first operation after open-by-path with an index: reads within the chunks of the request',
+                                    'fetched outside: %r' % (out,)))
+            finally:
+                tf.close()
+    finally:
+        builtins.open = real_open
+        shutil.rmtree(tmp, ignore_errors=True)
+    return nops, bad
+
+
 def run_file(item):
     kind, opts, seed = item
     nops, bad = check_file(kind, opts, seed)
+    if kind in ('int', 'il', 'str', 'be') and len(opts) >= 2:
+        n3, bad3 = check_file_indexed(kind, opts, seed)
+        nops += n3
+        bad += bad3
     cuts = []
     if kind in ('int', 'intswap', 'ts', 'il', 'be', 'mixed-il') and isinstance(opts[-1], tuple) and opts[-1][1] >= 2:
         # truncated final chunk (the chunk before it is complete): every value boundary of the target channel
@@ -230,7 +324,10 @@ def run(ctx):
 def replay(case):
     opts = tuple(tuple(o) if isinstance(o, list) else o for o in case['opts'])
     cut = case['op'][-1] if (len(case['op']) >= 2 and case['op'][-2] == 'cut') else None
-    _n, bad = check_file(case['kind'], opts, case.get('seed', 0), collect=10 ** 6, cut=cut)
+    if case.get('opkind') == 'first-op-indexed':
+        _n, bad = check_file_indexed(case['kind'], opts, case.get('seed', 0), collect=10 ** 6)
+    else:
+        _n, bad = check_file(case['kind'], opts, case.get('seed', 0), collect=10 ** 6, cut=cut)
     for (k, op, exp, got) in bad:
         if op == case['op'] or op + ['cut', cut] == case['op']:
             return True, exp, got
